@@ -96,3 +96,10 @@ Definition c02_nontrivial (cases : list mcase) : nat :=
 Definition c02_linear_count (cases : list mcase) : nat :=
   count_true (fun c => c02_linear_applicable c &&
                        match mc_go c with GoOk (_ :: _) => true | _ => false end) cases.
+
+(** * C03: observations made on the implementation for each case *)
+Definition c03_case_ok (c : mcase) : bool :=
+  mc_reps_agree c && mc_intact c && mc_independent c.
+
+Definition c03_violations (cases : list mcase) : list nat :=
+  bad_indexes (fun c => negb (c03_case_ok c)) 0 cases.
